@@ -3,7 +3,7 @@
 //! n elements with n*16 bytes far beyond that stack: an operation with per-element recursion
 //! must overflow (threshold argument, DESIGN 5/C16), one that completes has none.
 
-use crate::engine::child::{run_children, ChildObs};
+use crate::engine::child::{run_children, run_children_retry, ChildObs};
 use crate::report::{Acc, Ctx, Report, Sub};
 use lexpr::{Cons, Value};
 use serde_json::{json, Value as J};
@@ -590,8 +590,9 @@ fn judge(acc: &mut Acc, rank: u64, c: &J, obs: &ChildObs) {
         }
         ChildObs::Returned(s) => acc.violation("operations", "operation-failed", &format!("operation-failed:{}", op), rank, w, s.clone(), || c.clone()),
         ChildObs::Panicked(p) => acc.violation("operations", "panic", &format!("panic:{}", op), rank, w, p.clone(), || c.clone()),
+        ChildObs::Died(how) if how.contains("signal 9") => acc.count("inconclusive-killed"),
         ChildObs::Died(how) => acc.violation("operations", "stack-overflow", &format!("stack-overflow:{}", op), rank, w, format!("the process died ({}): stack use grows with the number of elements", how), || c.clone()),
-        ChildObs::TimedOut(t) => acc.violation("operations", "no-answer", &format!("no-answer:{}", op), rank, w, format!("no answer within {} s", t), || c.clone()),
+        ChildObs::TimedOut(_) => acc.count("inconclusive-timeout"),
     }
 }
 
@@ -620,7 +621,16 @@ pub fn run(ctx: &Ctx) -> Report {
         "every public operation that walks a list (parse from str/slice/reader as value and datum, print to String/Vec/writer/Display, the to_vec family, the three iterators exhausted and dropped half-way, positional and association indexing, is_list, clone, == (equal operands and operands differing everywhere / at alternate positions / first / last element / tail / length), drop; Datum clone/==/drop/list_iter/into Value; Serde to_value/from_value/from_str/to_string, and a long list skipped as an unknown field / IgnoredAny, as a struct field, in an Option, a map of n entries, n tuples) x {proper, dotted} x construction routes (Value::append, Cons::new chain, parser, Serde), each in a child process on a thread with the stated stack; a baseline at n = 8 shows the constant part fits; non-trivial = completed at n > 1000",
         &format!("{} cases; (stack, n) in {:?}; the O(n^2) datum-from-str parse at (256 KiB, 2^15)", cases.len(), configs),
     );
-    let obs = run_children(&cases, ctx.threads.min(16), 120, "c16");
+    // at most 8 children at a time (a 2^22-element list and its copy need several hundred MiB);
+    // an observation that says nothing about the code (killed by the kernel for memory, no answer
+    // in time on a loaded machine) is repeated alone with a long limit
+    let obs = run_children_retry(&cases, ctx.threads.min(8), 180, 1200, "c16");
+    let inconclusive: Vec<String> = cases.iter().zip(obs.iter()).filter(|(_, o)| o.inconclusive()).map(|(c, o)| format!("{} -> {}", c, o.short())).collect();
+    if !inconclusive.is_empty() {
+        // C16 is about stack use: an operation that is slow or is killed for memory decides nothing
+        eprintln!("MACHINERY: {} case(s) gave no usable observation even when run alone: {}", inconclusive.len(), inconclusive.join(" ; "));
+        std::process::exit(2);
+    }
     let mut acc = Acc::new();
     for (i, (c, o)) in cases.iter().zip(obs.iter()).enumerate() {
         if i < 3 || i % (cases.len() / 8).max(1) == 0 {
